@@ -41,4 +41,8 @@ TEXT = {
   text="Tail arithmetic regenerated from syncer_tail.go on every run and proved EQUAL to the model (rfl ties); for all 64-bit parameter values: no divide-by-zero panic (c16_no_panic_*), no wrap-around and results within [old tail, head] (c16_estimate_bounds, c16_tailEstimate_bounds), the walk loop only moves up, stays within the store and steps only over headers older than the window (c16_walk_bounds, c16_walk_retention); the head-based estimate's over-pruning is a proved counter-example (F7). The real Syncer's estimate/find/subjectiveTail are run on chain-shape x window x block-time grids; store bounds, gap-freeness, retention and repeated-call success are evaluated on the real Store.",
   note="PARTIAL: renewTail/moveTail (store + getter interaction) are not modelled, their clauses are checked on the implementation only; open known findings F7 (retention with dense blocks) and F15 (node offline longer than the window) are reported as KNOWN-FINDING.",
   technique="Lean 4 proof over regenerated Int64/UInt64 arithmetic + differential execution on chain-shape grids"),
+ "C09": dict(
+  text="c09_quorum_arith for EVERY peer count (regenerated minHeadResponses tied to the model), c09_first_quorum (returned at the arrival that completes a quorum), c09_fallback_highest, c09_none, c09_trusted (with WithTrustedHead a returned header never failed hard, nil error => it verified, soft error => its own soft verdict) about the model of Head's collection loop as a fold over arrival orders; the real Exchange.Head runs against scripted mocknet peers whose answers are released in chosen orders and is compared with the model and with the order-independent property predicate.",
+  note="Lean kernel; hand model of the goroutine/channel loop as a fold over arrivals; arrival order enforced by gated scripted peers with millisecond spacing (runtime assumption); libp2p is runtime.",
+  technique="Lean 4 proof (fold over arrival order, arithmetic for all n) + differential execution with gated scripted peers"),
 }
